@@ -154,19 +154,15 @@ class Enumerator(object):
         for p in outs:
             if p.done == 'return':
                 p.done = None
-            elif p.done in ('break', 'continue', 'iterate'):
+            elif p.done in ('break', 'continue'):
                 raise Unrecognised('helper %s leaves a loop of its caller' % npath)
             p.env = dict(saved_env)
         return outs
 
     def has_ctl(self, node):
-        for n in H.walk(node):
+        for n in H.walk_outside_closures(node):
             if n.get('k') in ('If', 'Match', 'Ret', 'Loop', 'Break', 'Continue') and not (n.get('k') == 'Match' and n.get('src') == 'Try'):
-                if n.get('k') == 'Match' and n.get('src') == 'ForLoop':
-                    return True
                 return True
-            if n.get('k') == 'Closure':
-                pass
         return False
 
     def run(self, node, path):
